@@ -36,6 +36,10 @@ HEADERS = [b"rgb", b"hsv", b"hsv360", b"LIST", b"list"]
 ALPHABET = b'{}=<>!?"\\#[]@ \n\t;a1b2.-+yesno'
 
 
+LONG_KEYS = [b"k" * n for n in (15, 16, 17, 31, 32, 33, 63, 64, 65)] + [b"province_modifier_" + b"x" * 20, b"province_modifier_" + b"x" * 19 + b"y",
+             b"a_very_long_key_name_that_goes_past_thirty_two_bytes", b"a_very_long_key_name_that_goes_past_thirty_two_bytez"]
+
+
 class Gen:
     def __init__(self, rng):
         self.rng = rng
@@ -64,6 +68,10 @@ class Gen:
 
     def key(self):
         r = self.rng.random()
+        if r < 0.07:
+            # long keys (around and beyond 16 / 32 / 64 bytes) from a small pool, so that they repeat inside one object at
+            # different offsets (and alignments) of the input: grouping is by the raw key bytes, wherever they sit
+            return self.rng.choice(LONG_KEYS)
         if r < 0.75:
             return self.rng.choice(KEYS)
         if r < 0.85:
